@@ -32,12 +32,18 @@ def small(name, freq, defs, npop=3, **kw):
     o['stubs'] = ['hook ECHSE_VERIF_CCH=2'] + o['stubs'][1:]
     return o
 OBLIGATIONS = [
-    small('secondly_restart_c2_p2', 7, ['RESTART', 'EXPECT_REFILLS'], npop=2, timeout=1200),
-    small('daily_restart_c2_p2', 4, ['RESTART', 'EXPECT_REFILLS'], npop=2, timeout=1200),
-    small('daily_count_c2_p2', 4, ['WITH_COUNT'], npop=2, timeout=1200),
-    small('secondly_restart_c2', 7, ['RESTART', 'EXPECT_REFILLS'], timeout=1200),
-    small('hourly_restart_c2', 5, ['RESTART', 'EXPECT_REFILLS'], timeout=1500),
-    small('daily_count_c2', 4, ['WITH_COUNT'], timeout=1500),
+    small('secondly_restart_c2_p2', 7, ['RESTART', 'EXPECT_REFILLS'], npop=2, timeout=2400),
+    small('daily_restart_c2_p2', 4, ['RESTART', 'EXPECT_REFILLS'], npop=2, timeout=2400),
+    small('daily_restart_c2_p2_kissat', 4, ['RESTART', 'EXPECT_REFILLS'], npop=2, timeout=2400, solver='kissat', tiers=('probe',)),
+    small('daily_count_c2_p2', 4, ['WITH_COUNT'], npop=2, timeout=2400),
+    small('secondly_restart_c2', 7, ['RESTART', 'EXPECT_REFILLS'], timeout=3400, tiers=T),
+    small('hourly_restart_c2', 5, ['RESTART', 'EXPECT_REFILLS'], timeout=3400, tiers=T),
+    small('daily_count_c2', 4, ['WITH_COUNT'], timeout=3400, tiers=T),
+    small('hourly_restart_c2_p2', 5, ['RESTART', 'EXPECT_REFILLS'], npop=2, timeout=3400, tiers=T),
+    small('weekly_restart_c2_p2', 3, ['RESTART', 'EXPECT_REFILLS'], npop=2, timeout=3400, tiers=T, mem_gb=20),
+    small('monthly_bymonthday1_restart_c2_p2', 2, ['RESTART', 'NDOM=1', 'EXPECT_REFILLS'], npop=2, timeout=3400, tiers=T, mem_gb=24),
+    small('monthly_shift3_restart_c2_p2', 2, ['RESTART', 'SHIFTD=3', 'EXPECT_REFILLS'], npop=2, timeout=3400, tiers=T, mem_gb=24),
+    small('daily_until_c2_p2', 4, ['WITH_UNTIL'], npop=2, timeout=3400, tiers=T),
     ob('hourly_restart', 5, ['RESTART', 'EXPECT_REFILLS'], npop=5, tiers=T, timeout=3400),
     ob('daily_restart', 4, ['RESTART', 'EXPECT_REFILLS'], npop=5, tiers=T, timeout=3400),
     ob('daily_byhour2_restart', 4, ['RESTART', 'NH=2', 'EXPECT_REFILLS'], npop=5, tiers=T, timeout=3400),
